@@ -324,11 +324,17 @@ def trace_last_state(trace_text):
 # evidence / violations / known findings
 # --------------------------------------------------------------------------
 def load_known():
-    p = os.path.join(ROOT, "known_findings.json")
-    if not os.path.exists(p):
-        return []
-    with open(p) as f:
-        return json.load(f)["findings"]
+    """known_findings.json plus known_findings.d/*.json (same format)"""
+    out = []
+    paths = [os.path.join(ROOT, "known_findings.json")]
+    d = os.path.join(ROOT, "known_findings.d")
+    if os.path.isdir(d):
+        paths += sorted(os.path.join(d, f) for f in os.listdir(d) if f.endswith(".json"))
+    for p in paths:
+        if os.path.exists(p):
+            with open(p) as f:
+                out += json.load(f)["findings"]
+    return out
 
 
 class Report:
